@@ -26,7 +26,7 @@ SIZE_CHECKED = {
 
 def gen_base(chk, i):
     rng = chk.rng(i, "base")
-    shape = rng.choice([[(1, [1])], [(2, [2])], [(2, [2, 1])]])
+    shape = rng.choice([[(1, [1])], [(2, [2])], [(2, [2, 1])], [(2, [2, 2])], [(3, [1, 1, 1, 1])]])
     looms = []
     tid, pid = 200, 20
     for li, (ncpus, procs) in enumerate(shape):
@@ -64,12 +64,19 @@ def gen_base(chk, i):
             hist.append((clock + 1, t.key, "OF[", b"", False))
             hist.append((clock + 2, t.key, "OF]", b"", False))
             clock += 2
-    return {"desc": desc, "enabled": enabled, "marks": marks, "hist": hist}
+    # the streams of a trace may come from different builds of the library (the
+    # emulator only warns): in half of the bases the commit and patch level differ
+    ptm = {}
+    if rng.random() < 0.5:
+        for n, t in enumerate(g.threads()):
+            ptm[t.key] = {"ovni": {"lib": {"version": rng.choice(["1.11.0", "1.11.0", "1.11.3"]),
+                                            "commit": rng.choice(["verif", "verif", "0a1b2c3", "0a1b2c3-dirty"])}}}
+    return {"desc": desc, "enabled": enabled, "marks": marks, "hist": hist, "per_thread_meta": ptm}
 
 
 def write_base(base, d):
     tracegen.write_trace(d, base["desc"], base["hist"], require=histgen.require_of(base["enabled"]),
-                         extra_meta=histgen.mark_meta(base["marks"]))
+                         extra_meta=histgen.mark_meta(base["marks"]), per_thread_meta=base.get("per_thread_meta"))
 
 
 def stream_events(base, key):
